@@ -15,6 +15,7 @@ Shape make_shape(const std::string& id) {
     else if (id == "S8") { add("A", 1, 2); add("B", 1, 2); add("C", 1, 1); }
     else if (id == "S9") { add("A", 1, 2); add("B", 1, 2); add("C", 1, 2); }
     else if (id == "S10") { add("A", 3, 2); }
+    else if (id == "S12") { add("A", 4, 2); }                     // four orbitals (M=8): preset term lists only (C04), never diagonalised
     else if (id == "S11") { add("A", 2, 1); add("B", 2, 1); }     // two spinless two-orbital sites: inter-site inter-orbital hopping
     else throw std::runtime_error("unknown shape " + id);
     return s;
